@@ -351,3 +351,176 @@ Proof.
     + injection Hin as <-. exact Hop.
   - destruct started; cbn in Hin; [destruct Hin as [Hin|[]]; inversion Hin; subst; exact I|destruct Hin].
 Qed.
+
+(* ---------- the other non-READ functions ---------- *)
+Definition misc_obs (o : oobs) : Prop :=
+  match o with
+  | OCb (CbSelect _ _ _ _) | OCb (CbOperate _ _ _ _ _) | OCb CbBeginFragment | OCb CbEndFragment => False
+  | _ => True
+  end.
+
+Lemma misc_cb_fn c fn : misc_obs (OCb c) -> cb_fn c fn.
+Proof. destruct c; cbn; tauto. Qed.
+
+Lemma write_iin_bits_spec bits : forall s s1 v o,
+  write_iin_bits s bits = (s1, v, o) -> pres fall s s1 /\ Forall misc_obs o.
+Proof.
+  induction bits as [|[idx value] rest IH]; intros s s1 v o H; cbn [write_iin_bits] in H.
+  - inversion H; subst. split; [apply pres_refl|constructor].
+  - destruct (idx =? 7).
+    + destruct value.
+      * destruct (write_iin_bits s rest) as [[s2 v2] o2] eqn:E. inversion H; subst. eapply IH; eauto.
+      * destruct (write_iin_bits (upd_restart s false) rest) as [[s2 v2] o2] eqn:E. inversion H; subst.
+        apply IH in E. destruct E as [E1 E2]. split; [|constructor; [exact I|exact E2]].
+        eapply pres_trans; [|exact E1]. pres_now.
+    + destruct (write_iin_bits s rest) as [[s2 v2] o2] eqn:E. inversion H; subst. eapply IH; eauto.
+Qed.
+
+Lemma write_header_spec cfg s h s1 v o :
+  write_header cfg s h = (s1, v, o) -> pres fall s s1 /\ Forall misc_obs o.
+Proof.
+  unfold write_header. destruct h; try (intros H; inversion H; subst; split; [apply pres_refl|constructor]; fail).
+  - apply write_iin_bits_spec.
+  - destruct t; intros H; inversion H; subst; split; try apply pres_refl; repeat constructor.
+  - destruct t; [|intros H; inversion H; subst; split; [apply pres_refl|constructor]].
+    destruct (s_last_recorded s); [|intros H; inversion H; subst; split; [apply pres_refl|constructor]].
+    destruct (max_timestamp - n <? Z.to_N (s_now s - z)); intros H; inversion H; subst;
+      split; try apply pres_refl; try pres_now; repeat constructor.
+Qed.
+
+Lemma handle_write_headers_spec cfg hdrs : forall s s1 v o,
+  handle_write_headers cfg s hdrs = (s1, v, o) -> pres fall s s1 /\ Forall misc_obs o.
+Proof.
+  induction hdrs as [|h rest IH]; intros s s1 v o H; cbn [handle_write_headers] in H.
+  - inversion H; subst. split; [apply pres_refl|constructor].
+  - destruct (write_header cfg s h) as [[s2 v2] o2] eqn:E1.
+    destruct (handle_write_headers cfg s2 rest) as [[s3 v3] o3] eqn:E2.
+    inversion H; subst. apply write_header_spec in E1. apply IH in E2.
+    destruct E1 as [A1 A2], E2 as [B1 B2]. split; [eapply pres_trans; eauto|apply Forall_app; auto].
+Qed.
+
+Lemma freeze_header_spec cfg ft t i h v o : freeze_header cfg ft t i h = (v, o) -> Forall misc_obs o.
+Proof. unfold freeze_header. destruct h; intros H; inversion H; subst; repeat constructor. Qed.
+
+Lemma handle_freeze_spec cfg ft hdrs : forall v o, handle_freeze cfg ft hdrs = (v, o) -> Forall misc_obs o.
+Proof.
+  induction hdrs as [|h rest IH]; intros v o H; cbn [handle_freeze] in H.
+  - inversion H; subst. constructor.
+  - destruct (freeze_header cfg ft 0 0 h) as [v1 o1] eqn:E1. destruct (handle_freeze cfg ft rest) as [v2 o2] eqn:E2.
+    inversion H; subst. apply Forall_app. split; [eapply freeze_header_spec; eauto|eapply IH; eauto].
+Qed.
+
+Lemma handle_freeze_at_time_spec cfg hdrs : forall timing v o,
+  handle_freeze_at_time cfg timing hdrs = (v, o) -> Forall misc_obs o.
+Proof.
+  induction hdrs as [|h rest IH]; intros timing v o H; cbn [handle_freeze_at_time] in H.
+  - inversion H; subst. constructor.
+  - assert (Hgen : forall v o,
+      match timing with
+      | None => let '(v, o) := handle_freeze_at_time cfg timing rest in (N.lor iin2_param v, o)
+      | Some (t, i) =>
+          let '(v1, o1) := freeze_header cfg 2 t i h in
+          let '(v2, o2) := handle_freeze_at_time cfg timing rest in (N.lor v1 v2, o1 ++ o2)
+      end = (v, o) -> Forall misc_obs o).
+    { intros v' o' H'. destruct timing as [[t i]|].
+      - destruct (freeze_header cfg 2 t i h) as [v1 o1] eqn:E1.
+        destruct (handle_freeze_at_time cfg (Some (t, i)) rest) as [v2 o2] eqn:E2.
+        inversion H'; subst. apply Forall_app. split; [eapply freeze_header_spec; eauto|eapply IH; eauto].
+      - destruct (handle_freeze_at_time cfg None rest) as [v2 o2] eqn:E2. inversion H'; subst. eapply IH; eauto. }
+    destruct h; try (eapply Hgen; eauto; fail).
+    destruct x.
+    + eapply IH; eauto.
+    + destruct (handle_freeze_at_time cfg timing rest) as [v2 o2] eqn:E2. inversion H; subst. eapply IH; eauto.
+Qed.
+
+Lemma enable_disable_pres cfg s en seq hdrs s1 r : enable_disable cfg s en seq hdrs = (s1, r) -> pres fall s s1.
+Proof.
+  unfold enable_disable. destruct (negb (o_unsol cfg)); [intros H; inversion H; subst; apply pres_refl|].
+  match goal with |- context [fold_left ?f hdrs ?a] => destruct (fold_left f hdrs a) as [e v] end.
+  intros H; inversion H; subst. pres_now.
+Qed.
+
+Lemma restart_response_pres seq s d s1 r : restart_response seq s d = (s1, r) -> pres fnobuf s s1.
+Proof.
+  unfold restart_response. destruct d as [[ms v]|]; intros H; inversion H; subst; [pres_now|apply pres_refl].
+Qed.
+
+Lemma handle_non_read_spec cfg s fn seq fid bytes hdrs s1 r o :
+  handle_non_read cfg s fn seq fid bytes hdrs = (s1, r, o) ->
+  pres fctl s s1 /\
+  (forall c, In (OCb c) o -> cb_fn c fn /\ (fn = fn_operate -> op_matched cfg s seq fid bytes)) /\
+  (s_select s1 = s_select s \/ sel_established cfg s fn seq fid bytes hdrs s1 o).
+Proof.
+  unfold handle_non_read. cbv zeta.
+  match goal with |- (let '(_, _, _) := ?X in _) = _ -> _ => destruct X as [[sa ra] oa] eqn:EX end.
+  intros H. inversion H; subst sa oa. clear H. revert EX.
+  assert (Hmisc : forall s1' (o' : list oobs) (code : N), fn = code -> code <> fn_operate ->
+            pres fctl s s1' -> s_select s1' = s_select s -> Forall misc_obs o' ->
+            pres fctl s s1' /\
+            (forall c, In (OCb c) o' -> cb_fn c fn /\ (fn = fn_operate -> op_matched cfg s seq fid bytes)) /\
+            (s_select s1' = s_select s \/ sel_established cfg s fn seq fid bytes hdrs s1' o')).
+  { intros s1' o' code Hfn Hne Hp Hs Hm. split; [exact Hp|]. split; [|left; exact Hs].
+    intros c Hin. split; [apply misc_cb_fn; rewrite Forall_forall in Hm; apply (Hm _ Hin)|].
+    intros Hc. congruence. }
+  destruct (fn =? fn_write) eqn:E.
+  { apply N.eqb_eq in E. destruct (handle_write_headers cfg s hdrs) as [[s2 v] o2] eqn:E2.
+    intros H; inversion H; subst s1 ra o. apply handle_write_headers_spec in E2. destruct E2 as [A B].
+    apply (Hmisc _ _ _ E); [discriminate|eapply pres_sub; [|exact A]; reflexivity| |exact B].
+    pget FSel A. exact P. }
+  clear E. destruct (fn =? fn_delay_measure) eqn:E.
+  { apply N.eqb_eq in E. intros H; inversion H; subst s1 ra o.
+    apply (Hmisc _ _ _ E); [discriminate|pres_now|reflexivity|constructor]. }
+  clear E. destruct (fn =? fn_record_time) eqn:E.
+  { apply N.eqb_eq in E. intros H; inversion H; subst s1 ra o.
+    apply (Hmisc _ _ _ E); [discriminate|pres_now|reflexivity|constructor]. }
+  clear E. destruct (fn =? fn_cold_restart) eqn:E.
+  { apply N.eqb_eq in E. destruct (restart_response seq s (o_cold cfg)) as [s2 r2] eqn:E2.
+    intros H; inversion H; subst s1 ra o. apply restart_response_pres in E2.
+    apply (Hmisc _ _ _ E); [discriminate|eapply pres_sub; [|exact E2]; reflexivity| |repeat constructor].
+    pget FSel E2. exact P. }
+  clear E. destruct (fn =? fn_warm_restart) eqn:E.
+  { apply N.eqb_eq in E. destruct (restart_response seq s (o_warm cfg)) as [s2 r2] eqn:E2.
+    intros H; inversion H; subst s1 ra o. apply restart_response_pres in E2.
+    apply (Hmisc _ _ _ E); [discriminate|eapply pres_sub; [|exact E2]; reflexivity| |repeat constructor].
+    pget FSel E2. exact P. }
+  clear E. destruct ((fn =? fn_select) || (fn =? fn_operate) || (fn =? fn_direct_operate) || (fn =? fn_direct_operate_nr)) eqn:E.
+  { intros H. apply handle_controls_spec in H; [exact H|].
+    rewrite !orb_true_iff, !N.eqb_eq in E. tauto. }
+  assert (Hnop : fn <> fn_operate).
+  { rewrite !orb_false_iff in E. destruct E as [[[_ E] _] _]. apply N.eqb_neq in E. exact E. }
+  clear E.
+  assert (Hmisc2 : forall (o' : list oobs), Forall misc_obs o' ->
+            pres fctl s s /\
+            (forall c, In (OCb c) o' -> cb_fn c fn /\ (fn = fn_operate -> op_matched cfg s seq fid bytes)) /\
+            (s_select s = s_select s \/ sel_established cfg s fn seq fid bytes hdrs s o')).
+  { intros o' Hm. apply (Hmisc s o' fn eq_refl Hnop (pres_refl _ _) eq_refl Hm). }
+  destruct (fn =? fn_immediate_freeze).
+  { destruct (handle_freeze cfg 0 hdrs) as [v o2] eqn:E2. intros H; inversion H; subst s1 ra o.
+    apply Hmisc2. eapply handle_freeze_spec; eauto. }
+  destruct (fn =? fn_immediate_freeze_nr).
+  { destruct (handle_freeze cfg 0 hdrs) as [v o2] eqn:E2. intros H; inversion H; subst s1 ra o.
+    apply Hmisc2. eapply handle_freeze_spec; eauto. }
+  destruct (fn =? fn_freeze_clear).
+  { destruct (handle_freeze cfg 1 hdrs) as [v o2] eqn:E2. intros H; inversion H; subst s1 ra o.
+    apply Hmisc2. eapply handle_freeze_spec; eauto. }
+  destruct (fn =? fn_freeze_clear_nr).
+  { destruct (handle_freeze cfg 1 hdrs) as [v o2] eqn:E2. intros H; inversion H; subst s1 ra o.
+    apply Hmisc2. eapply handle_freeze_spec; eauto. }
+  destruct (fn =? fn_freeze_at_time).
+  { destruct (handle_freeze_at_time cfg None hdrs) as [v o2] eqn:E2. intros H; inversion H; subst s1 ra o.
+    apply Hmisc2. eapply handle_freeze_at_time_spec; eauto. }
+  destruct (fn =? fn_freeze_at_time_nr).
+  { destruct (handle_freeze_at_time cfg None hdrs) as [v o2] eqn:E2. intros H; inversion H; subst s1 ra o.
+    apply Hmisc2. eapply handle_freeze_at_time_spec; eauto. }
+  destruct (fn =? fn_enable_unsol).
+  { destruct (enable_disable cfg s true seq hdrs) as [s2 r2] eqn:E2. intros H; inversion H; subst s1 ra o.
+    apply enable_disable_pres in E2.
+    apply (Hmisc _ _ fn eq_refl Hnop); [eapply pres_sub; [|exact E2]; reflexivity| |constructor].
+    pget FSel E2. exact P. }
+  destruct (fn =? fn_disable_unsol).
+  { destruct (enable_disable cfg s false seq hdrs) as [s2 r2] eqn:E2. intros H; inversion H; subst s1 ra o.
+    apply enable_disable_pres in E2.
+    apply (Hmisc _ _ fn eq_refl Hnop); [eapply pres_sub; [|exact E2]; reflexivity| |constructor].
+    pget FSel E2. exact P. }
+  intros H; inversion H; subst s1 ra o. apply Hmisc2. constructor.
+Qed.
